@@ -218,6 +218,16 @@ def exclusivity(atoms):
         for i in range(len(ats)):
             for j in range(i + 1, len(ats)):
                 ax.append(Not(And(atom(ats[i]), atom(ats[j]))))
+    # an atom about some element X[*..] of a collection can only hold if the collection is not empty
+    LEN_RE = re.compile(r"^gt\(len\((.*)\), 0\)$")
+    for a in atoms:
+        m = LEN_RE.match(a)
+        if not m:
+            continue
+        coll = m.group(1)
+        for o in atoms:
+            if o is not a and (coll + "[*") in o:
+                ax.append(Or(Not(atom(o)), atom(a)))
     return And(*ax) if ax else T
 
 
